@@ -47,6 +47,7 @@ func (f *Frame) execCall(instr ssa.Instruction, c *ssa.CallCommon, st *State) *V
 		return &V{Typ: resT, F: vs}
 	}
 	if c.IsInvoke() {
+		f.anchorsAtCall(instr, c.Method.Name(), st)
 		name := ifaceMethodName(c)
 		if ct := u.eng.Specs.Contracts[name]; ct != nil {
 			return mkRes(f.applyContract(instr, ct, nil, c.Signature(), name, args, st))
@@ -54,6 +55,9 @@ func (f *Frame) execCall(instr ssa.Instruction, c *ssa.CallCommon, st *State) *V
 		return mkRes(f.defaultCall(instr, name, c.Signature(), args, st))
 	}
 	callee := c.StaticCallee()
+	if callee != nil {
+		f.anchorsAtCall(instr, callee.Name(), st)
+	}
 	if callee == nil {
 		fv := f.val(c.Value)
 		if fv.Fn == nil {
@@ -930,4 +934,40 @@ func (u *Unit) pureAxiom(name string, callee *ssa.Function, sig *types.Signature
 	}
 	pat := res[0].leaves()[0]
 	u.emitDecl(fmt.Sprintf("(assert (forall (%s) (! %s :pattern (%s))))", strings.Join(decls, " "), body.S, pat.S))
+}
+
+// anchorsAtCall handles `assert@call <name>#<n> : expr` and `assume@call ...`
+// clauses of the function under contract: they are evaluated immediately
+// before the n-th call (in execution order of the VC generator) of a callee
+// with that name.
+func (f *Frame) anchorsAtCall(instr ssa.Instruction, calleeName string, st *State) {
+	if !f.top || f.contract == nil || len(f.contract.Asserts) == 0 {
+		return
+	}
+	u := f.u
+	if f.anchorOrd == nil {
+		f.anchorOrd = map[string]int{}
+	}
+	n := f.anchorOrd[calleeName]
+	f.anchorOrd[calleeName] = n + 1
+	for _, a := range f.contract.Asserts {
+		want := fmt.Sprintf("call %s#%d", calleeName, n)
+		if a.Anchor != want && !(a.Anchor == "call "+calleeName+"#*") {
+			continue
+		}
+		f.usedAnchors[a.Anchor] = true
+		ctx := f.specCtxAt(st, f.curBlock, f.curIdx)
+		label := a.Label
+		if label == "" {
+			label = "0"
+		}
+		if a.Assume {
+			u.assume(st, ctx.evalBool(a.E))
+			u.note("assumed at " + ShortName(f.fn) + " " + want + ": " + a.Src)
+			continue
+		}
+		g := ctx.evalGoal(a.E)
+		ob := u.oblige(st, "assert", f.anchor+want+"/"+label, g, "at "+want+": "+a.Src)
+		_ = ob
+	}
 }
